@@ -476,6 +476,7 @@ func allMethods() []method { //nolint:funlen
 func methodsAttack(rep int) *hx.Record { //nolint:funlen,gocyclo
 	w := newWorld()
 	defer w.cleanup()
+	w.ns = rep % (nameSchemes + 1) // user IDs that are look-alikes of one another (names.go); 0 = plainly distinct
 
 	loader, err := ldtestutil.DocumentLoader()
 	if err != nil {
